@@ -387,7 +387,19 @@ class FA:
     def sum(self, axis=None, **kw): return _sum(self, axis=axis)
     def any(self, axis=None, **kw): return _any(self, axis=axis)
     def all(self, axis=None, **kw): return _all(self, axis=axis)
-    def astype(self, dtype, **kw): return FA(self.data, self.shape)
+    def astype(self, dtype, **kw):
+        """casts keep the mathematical value except to the narrow integer types, which wrap (two's complement); symbolic integers are taken to
+        lie within int32/int64 (stated bound), so those casts and casts to floats are the identity"""
+        try:
+            dt = np.dtype(dtype)
+        except TypeError:
+            return FA(self.data, self.shape)
+        if dt.kind in "ui" and dt.itemsize <= 2 and any(isinstance(d, (SInt, int, np.integer)) and not isinstance(d, (bool, np.bool_)) for d in self.data):
+            m = 1 << (8 * dt.itemsize)
+            if dt.kind == "u":
+                return FA([d % m if not isinstance(d, (bool, np.bool_, SBool)) else d for d in self.data], self.shape)
+            return FA([((d + m // 2) % m) - m // 2 if not isinstance(d, (bool, np.bool_, SBool)) else d for d in self.data], self.shape)
+        return FA(self.data, self.shape)
     def copy(self): return FA(self.data, self.shape)
     def flatten(self): return FA(self.data, (len(self.data),))
     ravel = flatten
@@ -635,6 +647,16 @@ class JnpShim:
         if any(isinstance(x, FA) for x in xs):
             return concatenate(xs, axis=axis)
         return self._real.concatenate(xs, axis=axis, **kw)
+
+    def asarray(self, x, dtype=None, **kw):
+        if isinstance(x, FA):
+            return x if dtype is None else x.astype(dtype)
+        return self._real.asarray(x, dtype=dtype, **kw)
+
+    def array(self, x, dtype=None, **kw):
+        if isinstance(x, FA):
+            return x.copy() if dtype is None else x.astype(dtype)
+        return self._real.array(x, dtype=dtype, **kw)
 
     def __getattr__(self, name):
         return getattr(self._real, name)
